@@ -56,7 +56,7 @@ def gen_cases(tier, seed):
                           "mode": ["fixed", "jumptimes", "maxstep"][i % 3], "seed": int(rng.integers(2**31))})
     for j in range(4 if not thorough else 30):
         dim = 2 if j % 4 else 3
-        cm = W.gen_copula_model_spec(rng, dim=dim, kind=["clayton", "clayton", "independent", "dependent"][j % 4])
+        cm = W.gen_copula_model_spec(rng, dim=dim, kind=str(rng.choice(["clayton", "clayton", "independent", "dependent"])))
         W.limit_variation(rng, cm, allow_infinite=(dim == 2 and j % 4 == 1), y_hi=0.7)
         for ms in cm["margins"]:
             if ms["family"] == "MERTON":
